@@ -45,6 +45,11 @@ variable {α : Type} [Add α] [Sub α] [Mul α] [Div α] [LT α] [DecidableLT α
 /-- `toAbsTime`: `seconds += self.ms / 1000.0` (the only float operations of the function) -/
 def toAbsG (t : StampZ) : α := ((secondsZ t : Int) : α) + ((t.ms : Int) : α) / ((1000 : Int) : α)
 
+/-- `toAbsTime()` WITH its exception: the month loop reads `ObsTime.__day_per_month[m - 1]` for `m = 1 … month - 1`, which is an
+`IndexError` as soon as `month ≥ 14` (`none`); `toAbsG` is the value otherwise. (`Tie/C03.lean` `tie_toAbsTime_total`: this is
+exactly what the translation of the current source does.) -/
+def toAbsGE (t : StampZ) : Option α := if t.month ≤ 13 then some (toAbsG t) else none
+
 /-- the year loop `while True: … if elapsed_seconds - sec < sec_on_year: break; sec += sec_on_year; year += 1`
 with the integer accumulator `sec`; `none` = the fuel ran out (the Python loop would still be running:
 NaN, infinity). Returns the year and the accumulator. -/
